@@ -12,6 +12,7 @@ package main
 
 import (
 	"fmt"
+	"go/constant"
 	"go/token"
 	"go/types"
 	"strings"
@@ -67,13 +68,14 @@ type State struct {
 	phi     map[RV]RV
 	visits  map[[2]int]int
 	defers  map[*Frame][]*ssa.Defer
+	dargs   map[*Frame][][]RV // operands of each pending defer, resolved when the defer statement ran
 	trace   []Ev
 	decided map[RV]bool
 	canon   map[string]RV // canonical load of a cell with unknown content
 }
 
 func newState() *State {
-	return &State{canon: map[string]RV{}, mem: map[string]RV{}, bind: map[RV][]RV{}, sel: map[RV]int{}, phi: map[RV]RV{}, visits: map[[2]int]int{},
+	return &State{canon: map[string]RV{}, mem: map[string]RV{}, bind: map[RV][]RV{}, sel: map[RV]int{}, phi: map[RV]RV{}, visits: map[[2]int]int{}, dargs: map[*Frame][][]RV{},
 		defers: map[*Frame][]*ssa.Defer{}, decided: map[RV]bool{}}
 }
 
@@ -96,6 +98,9 @@ func (s *State) clone() *State {
 	}
 	for k, v := range s.defers {
 		n.defers[k] = append([]*ssa.Defer(nil), v...)
+	}
+	for k, v := range s.dargs {
+		n.dargs[k] = append([][]RV(nil), v...)
 	}
 	for k, v := range s.decided {
 		n.decided[k] = v
@@ -123,6 +128,10 @@ type PPA struct {
 	TraceBranches bool
 	// TraceLoads records loads of struct fields as events "load:pkg.Type.field".
 	TraceLoads bool
+	// TraceLookups records map lookups as events "lookup:<map>" with Args = {map, key} resolved on
+	// the path, Base/Field = the struct field the map was loaded from, and Note = "elem:<k>" when the
+	// key is element k (a constant on this path) of a slice, whose resolved value is Args[2].
+	TraceLookups bool
 	// NoAuto disables the default inlining of unexported same-package helpers and of
 	// function literals invoked where they are defined.  By default such a callee is
 	// entered unless the rule watches the call itself (Watch accepts its call event),
@@ -131,9 +140,10 @@ type PPA struct {
 	// HeapForward also forwards a store to a field of an object reached through a parameter
 	// of the analysed function (x.f = v ... x.f) to later loads on the path, as long as no call,
 	// go, channel operation or deferred call intervenes.
+	preArgs     []RV // operands captured at defer time for the deferred call being entered
 	HeapForward bool
 	NoAuto      bool
-	Opaque map[*ssa.Function]bool
+	Opaque      map[*ssa.Function]bool
 	// Probe is called for every instruction about to be executed on a path.
 	Probe func(e *PPA, st *State, fr *Frame, in ssa.Instruction)
 
@@ -313,6 +323,20 @@ func (f *Frame) depth() int {
 
 type cont func(st *State, rets []RV)
 
+// fieldOfStructVal: field i of a struct value that is the load of a local cell whose fields are known.
+func (e *PPA) fieldOfStructVal(st *State, sv RV, i int) (RV, bool) {
+	u, ok := sv.V.(*ssa.UnOp)
+	if !ok || u.Op != token.MUL {
+		return RV{}, false
+	}
+	key, ok := e.cellKey(st, RV{sv.F, u.X})
+	if !ok {
+		return RV{}, false
+	}
+	val, ok := st.mem[fmt.Sprintf("%s.%d", key, i)]
+	return val, ok
+}
+
 // frameResolve follows parameters and free variables of inlined activations to the
 // caller's values (no memory, usable after the path has ended).
 func frameResolve(rv RV) RV {
@@ -414,13 +438,71 @@ func (e *PPA) Resolve(st *State, rv RV) RV {
 					rv = val
 					continue
 				}
+				// x.f where x was assigned as a whole struct value whose fields are known
+				if fa, isFA := e.resolveAddr(st, RV{rv.F, v.X}).V.(*ssa.FieldAddr); isFA {
+					ra := e.resolveAddr(st, RV{rv.F, v.X})
+					if pk, ok := e.cellKey(st, RV{ra.F, fa.X}); ok {
+						if sv, ok := st.mem[pk]; ok {
+							if fv, ok := e.fieldOfStructVal(st, sv, fa.Field); ok {
+								rv = fv
+								continue
+							}
+						}
+					}
+				}
 				// unknown content: all loads of the cell between two stores are the same value
+				if cv, ok := st.canon[key]; ok {
+					return cv
+				}
+				st.canon[key] = rv
+				return rv
+			}
+			// x.f with f never written after construction: every load through the same x is the same value
+			if fa, isFA := v.X.(*ssa.FieldAddr); isFA && finalField(fieldOf(fa), rv.F) {
+				base := e.Resolve(st, RV{rv.F, fa.X})
+				key := fmt.Sprintf("final:%p:%p.%d", base.F, base.V, fa.Field)
 				if cv, ok := st.canon[key]; ok {
 					return cv
 				}
 				st.canon[key] = rv
 			}
 			return rv
+		case *ssa.Field:
+			// field of a struct value loaded from a local cell whose fields were stored individually
+			base := e.Resolve(st, RV{rv.F, v.X})
+			u, ok := base.V.(*ssa.UnOp)
+			if !ok || u.Op != token.MUL {
+				return rv
+			}
+			key, ok := e.cellKey(st, RV{base.F, u.X})
+			if !ok {
+				return rv
+			}
+			val, ok := st.mem[fmt.Sprintf("%s.%d", key, v.Field)]
+			if !ok {
+				return rv
+			}
+			rv = val
+		case *ssa.BinOp:
+			// integer arithmetic on constants (loop counters resolved through φ by the path)
+			if v.Op != token.ADD && v.Op != token.SUB {
+				return rv
+			}
+			x := e.Resolve(st, RV{rv.F, v.X})
+			y := e.Resolve(st, RV{rv.F, v.Y})
+			cx, okx := constInt(x.V)
+			cy, oky := constInt(y.V)
+			if !okx || !oky {
+				return rv
+			}
+			if _, isConst := x.V.(*ssa.Const); !isConst {
+				return rv
+			}
+			res := cx + cy
+			if v.Op == token.SUB {
+				res = cx - cy
+			}
+			return RV{rv.F, ssa.NewConst(constant.MakeInt64(res), v.Type())}
 		case *ssa.ChangeType:
 			rv = RV{rv.F, v.X}
 		case *ssa.MakeInterface:
@@ -620,6 +702,14 @@ func (e *PPA) exec(fr *Frame, b *ssa.BasicBlock, i int, st *State, k cont) {
 		case *ssa.MapUpdate:
 			ev := Ev{Label: "mapupdate:" + Expr(in.Map), In: in, F: fr, Args: []RV{e.Resolve(st, RV{fr, in.Map}), e.Resolve(st, RV{fr, in.Key}), e.Resolve(st, RV{fr, in.Value})}}
 			ev.Base, ev.Field = loadedField(e, st, RV{fr, in.Map})
+			if u, ok := in.Key.(*ssa.UnOp); ok && u.Op == token.MUL {
+				if ia, ok := u.X.(*ssa.IndexAddr); ok {
+					if k, okc := constInt(e.Resolve(st, RV{fr, ia.Index}).V); okc {
+						ev.Note = fmt.Sprintf("elem:%d", k)
+						ev.Args = append(ev.Args, e.Resolve(st, RV{fr, ia.X}))
+					}
+				}
+			}
 			e.emit(st, ev)
 		case *ssa.Send:
 			e.emit(st, Ev{Label: "send:" + Expr(in.Chan), In: in, F: fr, Blocking: true, Args: []RV{e.Resolve(st, RV{fr, in.Chan}), e.Resolve(st, RV{fr, in.X})}})
@@ -630,6 +720,23 @@ func (e *PPA) exec(fr *Frame, b *ssa.BasicBlock, i int, st *State, k cont) {
 			if in.Op == token.MUL && e.TraceLoads {
 				if fa, ok := in.X.(*ssa.FieldAddr); ok {
 					e.emit(st, Ev{Label: "load:" + qualField(fa), In: in, F: fr, Base: e.Resolve(st, RV{fr, fa.X}), Field: fieldOf(fa)})
+				}
+			}
+		case *ssa.Lookup:
+			if e.TraceLookups {
+				if _, isMap := in.X.Type().Underlying().(*types.Map); isMap {
+					ev := Ev{Label: "lookup:" + Expr(in.X), In: in, F: fr, Args: []RV{e.Resolve(st, RV{fr, in.X}), e.Resolve(st, RV{fr, in.Index})}}
+					ev.Base, ev.Field = loadedField(e, st, RV{fr, in.X})
+					if u, ok := in.Index.(*ssa.UnOp); ok && u.Op == token.MUL {
+						if ia, ok := u.X.(*ssa.IndexAddr); ok {
+							if k, okc := constInt(e.Resolve(st, RV{fr, ia.Index}).V); okc {
+								ev.Note = fmt.Sprintf("elem:%d", k)
+								ev.Args = append(ev.Args, e.Resolve(st, RV{fr, ia.X}))
+							}
+						}
+					}
+					// range element: for _, name := range s { m[name] }  (name = s[rangeindex])
+					e.emit(st, ev)
 				}
 			}
 		case *ssa.Field:
@@ -666,10 +773,27 @@ func (e *PPA) exec(fr *Frame, b *ssa.BasicBlock, i int, st *State, k cont) {
 			e.emit(st, e.callEv(st, fr, in, "go:"))
 		case *ssa.Defer:
 			st.defers[fr] = append(st.defers[fr], in)
+			// the operands of a deferred call are evaluated when the defer statement runs
+			var da []RV
+			if in.Call.IsInvoke() {
+				da = append(da, e.Resolve(st, RV{fr, in.Call.Value}))
+			}
+			for _, a := range in.Call.Args {
+				da = append(da, e.Resolve(st, RV{fr, a}))
+			}
+			// receiver given as the address of a field (defer x.mu.Unlock()): remember which x (extra last element)
+			if len(da) > 0 {
+				if fa, ok := da[0].V.(*ssa.FieldAddr); ok {
+					da = append(da, e.Resolve(st, RV{da[0].F, fa.X}))
+				}
+			}
+			st.dargs[fr] = append(st.dargs[fr], da)
 		case *ssa.RunDefers:
 			ds := st.defers[fr]
+			das := st.dargs[fr]
 			st.defers[fr] = nil
-			e.runDefers(fr, ds, st, func(st *State, _ []RV) { e.exec(fr, b, i+1, st, k) })
+			st.dargs[fr] = nil
+			e.runDefers(fr, ds, das, st, func(st *State, _ []RV) { e.exec(fr, b, i+1, st, k) })
 			return
 		case *ssa.Call:
 			if _, ok := in.Call.Value.(*ssa.Builtin); ok {
@@ -849,16 +973,23 @@ func (e *PPA) forget(st *State, a RV) {
 	}
 }
 
-func (e *PPA) runDefers(fr *Frame, ds []*ssa.Defer, st *State, k cont) {
+func (e *PPA) runDefers(fr *Frame, ds []*ssa.Defer, das [][]RV, st *State, k cont) {
 	if len(ds) == 0 {
 		k(st, nil)
 		return
 	}
 	d := ds[len(ds)-1]
 	rest := ds[:len(ds)-1]
+	var da []RV
+	var restA [][]RV
+	if len(das) == len(ds) {
+		da = das[len(das)-1]
+		restA = das[:len(das)-1]
+	}
 	callee := e.calleeOf(st, fr, &d.Call)
 	if callee != nil && len(callee.Blocks) > 0 && fr.depth() < e.MaxDepth && ((e.Inline != nil && e.Inline(fr, d, callee)) || e.auto(st, fr, d, callee)) {
-		e.inlineCall(fr, d, &d.Call, callee, st, func(st *State, _ []RV) { e.runDefers(fr, rest, st, k) })
+		e.preArgs = da
+		e.inlineCall(fr, d, &d.Call, callee, st, func(st *State, _ []RV) { e.runDefers(fr, rest, restA, st, k) })
 		return
 	}
 	prefix := "call:"
@@ -866,9 +997,18 @@ func (e *PPA) runDefers(fr *Frame, ds []*ssa.Defer, st *State, k cont) {
 		prefix = ""
 	}
 	ev := e.callEv(st, fr, d, prefix)
+	if da != nil && len(da) >= len(ev.Args) {
+		copy(ev.Args, da[:len(ev.Args)])
+		if len(da) == len(ev.Args)+1 && len(ev.Args) > 0 {
+			if fa, ok := ev.Args[0].V.(*ssa.FieldAddr); ok {
+				ev.Base = da[len(da)-1]
+				ev.Field = fieldOf(fa)
+			}
+		}
+	}
 	ev.Deferred = true
 	e.emit(st, ev)
-	e.runDefers(fr, rest, st, k)
+	e.runDefers(fr, rest, restA, st, k)
 }
 
 // calleeOf resolves the callee, following local cells / free variables to a closure.
@@ -893,6 +1033,13 @@ func (e *PPA) inlineCall(fr *Frame, in ssa.Instruction, c *ssa.CallCommon, calle
 	var args []RV
 	for _, a := range c.Args {
 		args = append(args, e.Resolve(st, RV{fr, a}))
+	}
+	// a deferred call runs with the operands captured when it was deferred
+	if pa := e.preArgs; pa != nil {
+		e.preArgs = nil
+		if len(pa) >= len(args) {
+			args = pa[:len(args)]
+		}
 	}
 	var bind []RV
 	r := e.Resolve(st, RV{fr, c.Value})
@@ -980,6 +1127,58 @@ func (e *PPA) sliceLitElems(st *State, rv RV) ([]RV, bool) {
 	return out, true
 }
 
+// intVal: an integer known on the current path: a constant, or len(s) of a slice whose construction
+// the path has seen (nil, make with a constant length, append of literal elements onto such a slice).
+func (e *PPA) intVal(st *State, rv RV, d int) (int64, bool) {
+	if d > 8 {
+		return 0, false
+	}
+	if c, ok := constInt(rv.V); ok {
+		if _, isConst := rv.V.(*ssa.Const); isConst {
+			return c, true
+		}
+	}
+	call, ok := rv.V.(*ssa.Call)
+	if !ok {
+		return 0, false
+	}
+	la, ok := lenArg(call)
+	if !ok {
+		return 0, false
+	}
+	return e.sliceLen(st, e.Resolve(st, RV{rv.F, la}), d+1)
+}
+
+func (e *PPA) sliceLen(st *State, s RV, d int) (int64, bool) {
+	if d > 12 {
+		return 0, false
+	}
+	switch v := s.V.(type) {
+	case *ssa.Const:
+		if v.Value == nil {
+			return 0, true
+		}
+	case *ssa.MakeSlice:
+		if k, ok := constInt(e.Resolve(st, RV{s.F, v.Len}).V); ok {
+			return k, true
+		}
+	case *ssa.Call:
+		if ac, ok := isAppend(v); ok && len(ac.Call.Args) == 2 {
+			base, okb := e.sliceLen(st, e.Resolve(st, RV{s.F, ac.Call.Args[0]}), d+1)
+			if !okb {
+				return 0, false
+			}
+			if n, ok := literalLen(ac.Call.Args[1]); ok {
+				return base + n, true
+			}
+			if isNilConst(ac.Call.Args[1]) {
+				return base, true
+			}
+		}
+	}
+	return 0, false
+}
+
 // evalCond folds a boolean value on the current path.
 func (e *PPA) evalCond(st *State, c RV) (val, known bool) {
 	if v, ok := st.decided[c]; ok {
@@ -1028,9 +1227,9 @@ func (e *PPA) foldBin(st *State, fr *Frame, b *ssa.BinOp) (bool, bool) {
 			}
 		}
 	}
-	// two integer constants
-	if cx, ok := constInt(x.V); ok {
-		if cy, ok := constInt(y.V); ok {
+	// two integer constants (incl. the length of a slice built on this path)
+	if cx, ok := e.intVal(st, x, 0); ok {
+		if cy, ok := e.intVal(st, y, 0); ok {
 			return cmpInt(b.Op, cx, cy)
 		}
 	}
@@ -1229,4 +1428,70 @@ func DistinctPaths(ps []Path) []Path {
 		}
 	}
 	return out
+}
+
+// Trace0F: the frame of the analysed function (frame of the first event, or nil).
+func (p *Path) Trace0F() *Frame {
+	for i := range p.Trace {
+		f := p.Trace[i].F
+		for f != nil && f.Parent != nil {
+			f = f.Parent
+		}
+		if f != nil {
+			return f
+		}
+	}
+	return nil
+}
+
+// finalField: no function of the field's package stores into the field except while initialising a
+// freshly allocated object (composite literal / new in the same function).  Loads of such a field
+// through the same object always yield the same value.
+var finalFieldMemo = map[*types.Var]bool{}
+
+func finalField(fld *types.Var, fr *Frame) bool {
+	if fld == nil || fld.Pkg() == nil || fr == nil || fr.Fn == nil || fld.Exported() {
+		return false
+	}
+	if v, ok := finalFieldMemo[fld]; ok {
+		return v
+	}
+	res := true
+	prog := fr.Fn.Prog
+	pkg := prog.ImportedPackage(fld.Pkg().Path())
+	if pkg == nil || !strings.HasPrefix(fld.Pkg().Path(), modPath) {
+		finalFieldMemo[fld] = false
+		return false
+	}
+	any := &ssa.Function{}
+	_ = any
+	var root *ssa.Function
+	for _, m := range pkg.Members {
+		if f, ok := m.(*ssa.Function); ok {
+			root = f
+			break
+		}
+	}
+	if root == nil {
+		finalFieldMemo[fld] = false
+		return false
+	}
+	for fn := range allFnsOfPkg(root) {
+		instrs(fn, func(in ssa.Instruction) {
+			st, ok := in.(*ssa.Store)
+			if !ok || fieldOf(st.Addr) != fld {
+				return
+			}
+			fa, ok := st.Addr.(*ssa.FieldAddr)
+			if !ok {
+				res = false
+				return
+			}
+			if _, fresh := fa.X.(*ssa.Alloc); !fresh {
+				res = false
+			}
+		})
+	}
+	finalFieldMemo[fld] = res
+	return res
 }
